@@ -49,6 +49,7 @@ class SpecMixin:
             fr = self.frames[-1]
             cur_locals = fr.locals
             self.heap, self.ghost = self.old_heap, self.old_ghost
+            self.old_heap.fallback = cur_heap
             fr.locals = dict(self.old_locals)
             # names bound by enclosing quantifiers stay visible
             for k, v in cur_locals.items():
